@@ -216,6 +216,11 @@ class ExprMixin:
                 return
             for s1, v in self.ev(node.values[i], s):
                 t = self.truth(s1, v)
+                ts = z3.simplify(t)
+                if (is_and and z3.is_false(ts)) or (not is_and and z3.is_true(ts)):
+                    # short circuit decided statically: the later operands are not evaluated (Python does not evaluate them either)
+                    yield s1, vals + [v], truths + [t]
+                    continue
                 s1.guards.append(t if is_and else z3.Not(t))
                 yield from rec(i + 1, s1, vals + [v], truths + [t])
 
@@ -273,6 +278,10 @@ class ExprMixin:
     def ev_IfExp(self, node, st):
         s, c = self.ev1(node.test, st)
         t = self.truth(s, c)
+        ts = z3.simplify(t)
+        if z3.is_true(ts) or z3.is_false(ts):
+            yield from self.ev(node.body if z3.is_true(ts) else node.orelse, s)      # only the selected branch is evaluated
+            return
         depth = len(s.guards)
         s.guards.append(t)
         s, a = self.ev1(node.body, s)
@@ -424,6 +433,19 @@ class ExprMixin:
             return z3.BoolVal(isinstance(a, VNone) and isinstance(b, VNone))
         if isinstance(a, VObj) and isinstance(b, VObj):
             return self.obj_eq(st, a, b)
+        if isinstance(a, VObj) and isinstance(b, VFunc) and a.classes != ('str',):
+            # comparison of an object with a function / property object (e.g. `s != AlignmentSegment.empty`): the class's __eq__ decides
+            terms = []
+            for ca in a.classes:
+                fm = self.repo.find_method(ca, '__eq__') if self.repo.cls(ca) else None
+                if fm is None:
+                    terms.append((ca, z3.BoolVal(False)))
+                else:
+                    terms.append((ca, self.truth(st, self.pure_call(st, fm[1], fm[0], [VObj(a.t, (ca,)), b]))))
+            res = terms[-1][1]
+            for ca, r in reversed(terms[:-1]):
+                res = z3.If(cls_of(a.t) == self.cls_id(ca), r, res)
+            return res
         if isinstance(a, VEnum) and isinstance(b, VEnum):
             return a.t == b.t
         if isinstance(a, VStr) and isinstance(b, VStr):
@@ -531,9 +553,12 @@ class ExprMixin:
         yield st, VFunc('lambda', (node, st.cur))
 
     def ev_NamedExpr(self, node, st):
-        for s, v in self.ev(node.value, st):
-            s.bind(node.target.id, v)
-            yield s, v
+        outs = list(self.ev(node.value, st))
+        if len(outs) != 1:
+            outs = self.merge(st, outs)          # bind in the merged state: a binding made in a forked state would be lost by a later merge
+        s, v = outs[0]
+        s.bind(node.target.id, v)
+        yield s, v
 
     def ev_JoinedStr(self, node, st):
         # f-strings are outside the modelled subset: an opaque string determined by its parts
